@@ -485,6 +485,12 @@ impl GitignoreBuilder {
                 line = &line[..line.len() - 1];
             }
         }
+        // A line like `!` or `/` has no pattern left at this point. It matches
+        // nothing, as opposed to an empty glob, which would match everything
+        // once it gets its `**/` prefix.
+        if line.is_empty() {
+            return Ok(self);
+        }
         glob.actual = line.to_string();
         // If there is a literal slash, then this is a glob that must match the
         // entire path name. Otherwise, we should let it match anywhere, so use
